@@ -88,11 +88,19 @@ inductive Reader
   deriving DecidableEq, Repr
 
 inductive Iterator
-  /-- `e := r.l.Front()`; each call: `e == nil` → `("", nil, false)`; otherwise `key, _ := e.Value.(string)`,
-      `e = e.Next()`, `(key, r.m[key], true)` -/
+  /-- The iterator has ONE cursor of its own, `e`, set to `r.l.Front()` when the iterator is made (a captured
+      variable of the closure, or the field of a small struct whose bound method is returned — the same thing);
+      each call: `e == nil` → `("", nil, false)`; otherwise `key, _ := e.Value.(string)`, `e = e.Next()`,
+      `(key, r.m[key], true)`.  So the i-th call returns the i-th key of the list, in list order, with the Value the
+      map holds for it, the call after the last one (and every later one) reports the end; nothing is written to
+      the row. -/
   | listFrontToBack
   /-- `it := r.<of>()`; each call: `k, v, ok := it()`; `ok` → `(k, v.Raw(), true)`; otherwise `(k, v, ok)` -/
   | rawOf (of : String)
+  /-- `listFrontToBack` with `r.m[key].Raw()` in the place of `r.m[key]`: a cursor of its own from `r.l.Front()`;
+      `e == nil` → `("", nil, false)`; otherwise the key, `e = e.Next()`, `(key, r.m[key].Raw(), true)`.
+      (`rawOf "IterValues"` over a `listFrontToBack` IterValues, written without the detour: `RowFacts.normalised`.) -/
+  | listFrontToBackRaw
   | unknown (text : String)
   deriving DecidableEq, Repr
 
@@ -360,9 +368,18 @@ def MapToFact.normalised : MapToFact → MapToFact
   | .fields p s k l cs => .fields p s k l (cs.map fun c => (c.1, c.2.castFirst))
   | m => m
 
+/-- An iterator that walks the list itself and hands out raw values, told as `rawOf` the iterator of the same row
+    that walks the list and hands out the Values — when there is one under that name.  (That the two are the
+    same sequence of answers is `Proofs.RowTieAll.iter_either`.) -/
+def normalisedIterators (its : List (String × Iterator)) : List (String × Iterator) :=
+  if its.lookup "IterValues" = some .listFrontToBack then
+    its.map fun p => (p.1, match p.2 with | .listFrontToBackRaw => .rawOf "IterValues" | i => i)
+  else its
+
 /-- The facts with every accepted alternative spelling replaced by the one `RowFactsSpec.expected` uses. -/
 def RowFacts.normalised (f : RowFacts) : RowFacts :=
-  { f with marshal := f.marshal.normalised, mapTo := f.mapTo.normalised }
+  { f with marshal := f.marshal.normalised, mapTo := f.mapTo.normalised,
+           iterators := normalisedIterators f.iterators }
 
 /-- No `unknown` anywhere. -/
 def RowFacts.known (f : RowFacts) : Bool :=
